@@ -17,6 +17,7 @@ pub fn register(v: &mut Vec<(&'static str, crate::Harness)>) {
     v.push(("h_c03_rejects", h_c03_rejects));
     v.push(("h_c03_total", h_c03_total));
     v.push(("h_c03_fragment_scope", h_c03_fragment_scope));
+    v.push(("h_c03_charref_value", h_c03_charref_value));
     v.push(("h_c17_spans", h_c17_spans));
     v.push(("h_c17_error_spans", h_c17_error_spans));
 }
@@ -277,7 +278,9 @@ pub fn h_c02_names() {
     let (d1, l1) = decl_text(c1);
     let qn = |p: &str, n: &str| if p.is_empty() { n.to_string() } else { format!("{}:{}", p, n) };
     let en = qn(ep, "e");
-    let an = qn(ap, "t");
+    // a prefixed attribute may have the local name xmlns: it is an ordinary attribute
+    let al = if !ap.is_empty() && sym::choose("al", 2) == 1 { "xmlns" } else { "t" };
+    let an = qn(ap, al);
     let src = format!("<r{}><{}{} {}=\"v\"/><{}/></r>", d0, en, d1, an, en);
     let chain = vec![l0.clone(), l1.clone()];
     let e_ns = resolve(&chain, ep);
@@ -298,7 +301,7 @@ pub fn h_c02_names() {
             let (local2, ns2) = xot.name_ns_str(xot.node_name(e2).unwrap());
             sym::check("sibling-expanded-name-scope-ended", local2 == "e" && ns2 == e2_ns.unwrap());
             let attrs: Vec<(String, String)> = xot.attributes(e).keys().map(|k| { let (l, n) = xot.name_ns_str(k); (l.to_string(), n.to_string()) }).collect();
-            sym::check("attribute-expanded-name", attrs.len() == 1 && attrs[0].0 == "t" && attrs[0].1 == a_ns.unwrap());
+            sym::check("attribute-expanded-name", attrs.len() == 1 && attrs[0].0 == al && attrs[0].1 == a_ns.unwrap());
             let want0: Vec<(String, String)> = l0.iter().map(|(p, u)| (p.to_string(), u.to_string())).collect();
             let want1: Vec<(String, String)> = l1.iter().map(|(p, u)| (p.to_string(), u.to_string())).collect();
             sym::check("declarations-on-the-element-that-wrote-them", decls(&xot, r) == want0 && decls(&xot, e) == want1 && decls(&xot, e2).is_empty());
@@ -478,7 +481,7 @@ pub fn h_c03_tags() {
 
 pub fn h_c03_rejects() {
     let mut xot = Xot::new();
-    let k = sym::choose("k", 12);
+    let k = sym::choose("k", 13);
     let v = sym::any_string("v", 1);
     for c in v.chars() {
         sym::assume(is_xml_char(c) & (c != '<') & (c != '&') & (c != '"'));
@@ -495,6 +498,8 @@ pub fn h_c03_rejects() {
         8 => format!("<a>{}<</a>", v),
         9 => "<a>&#0;</a>".to_string(),
         10 => "<a xmlns:p=\"u\"><p:b></p:c></a>".to_string(),
+        // a prefix bound to the empty namespace name (itself a namespace error) gives p:x and x one expanded name
+        12 => format!("<e xmlns:p=\"\" p:x=\"{}\" x=\"2\"/>", v),
         _ => "<a xmlns:p=\"u\" xmlns:q=\"u\"><p:b></q:b></a>".to_string(),
     };
     sym::class("KF-C03-close-tag-matched-by-expanded-name", k == 11);
@@ -651,5 +656,54 @@ pub fn h_c17_error_spans() {
         let sp = e.span();
         sym::check("error-span-inside-source", sp.start <= sp.end && sp.end <= src.len());
         sym::check("error-span-on-char-boundaries", src.is_char_boundary(sp.start) && src.is_char_boundary(sp.end));
+    }
+}
+
+/// a character reference whose digits are symbolic: accepted exactly when the
+/// value is an XML Char, and then it denotes that character (text and attribute value)
+pub fn h_c03_charref_value() {
+    let mut xot = Xot::new();
+    let hex = sym::choose("hex", 2) == 1;
+    let radix: u32 = if hex { 16 } else { 10 };
+    let n = 1 + sym::choose("digits", sym::param("DIGITS", 5));
+    let upper = hex && sym::choose("upper", 2) == 1;
+    let names = ["d0", "d1", "d2", "d3", "d4", "d5", "d6", "d7"];
+    let mut digits = String::new();
+    let mut value: u32 = 0;
+    for name in names.iter().take(n) {
+        let d = sym::any_u32(name);
+        sym::assume(d < radix);
+        let c = if d < 10 {
+            48 + d
+        } else if upper {
+            55 + d
+        } else {
+            87 + d
+        };
+        digits.push(char::from_u32(c).unwrap());
+        value = value * radix + d;
+    }
+    let v = value;
+    let xml_char = (v == 9) | (v == 10) | (v == 13) | ((v >= 0x20) & (v <= 0xD7FF)) | ((v >= 0xE000) & (v <= 0xFFFD)) | ((v >= 0x10000) & (v <= 0x10FFFF));
+    let reference = if hex { format!("&#x{};", digits) } else { format!("&#{};", digits) };
+    let in_attr = sym::choose("where", 2) == 1;
+    let src = if in_attr { format!("<a t=\"{}\"/>", reference) } else { format!("<a>{}</a>", reference) };
+    match xot.parse(&src) {
+        Ok(doc) => {
+            sym::check("reference-outside-xml-char-rejected", xml_char);
+            if !xml_char {
+                return;
+            }
+            let el = xot.document_element(doc).unwrap();
+            let mut want = String::new();
+            want.push(char::from_u32(v).unwrap());
+            if in_attr {
+                let t = xot.add_name("t");
+                sym::check("reference-denotes-its-character", xot.get_attribute(el, t) == Some(want.as_str()));
+            } else {
+                sym::check("reference-denotes-its-character", xot.text_content_str(el) == Some(want.as_str()));
+            }
+        }
+        Err(_) => sym::check("reference-to-xml-char-accepted", !xml_char),
     }
 }
